@@ -517,7 +517,9 @@ func runC12(c *core.Ctx) error {
 func init() {
 	register(&core.Check{ID: "C12", Level: "model_checking", Run: runC12,
 		Replay: func(c *core.Ctx, raw json.RawMessage) ([]core.Finding, error) {
-			var probe struct{ Src string `json:"src"` }
+			var probe struct {
+				Src string `json:"src"`
+			}
 			if json.Unmarshal(raw, &probe) == nil && probe.Src != "" {
 				return jdTraceReplay(raw)
 			}
